@@ -81,14 +81,29 @@ theorem partial_exact (sig R : USig) (n m : Nat) (kw : List (Nat × Nat)) (pobj 
   rw [← hcongr]
   exact ⟨pop.1 hKc, pop.2⟩
 
-/-- every bound keyword shows up as a keyword-only parameter whose default is the bound value -/
+/-- every bound keyword shows up as a keyword-only parameter whose default is the bound value —
+    unless it is named like `*args` or `**kwargs` themselves, in which case no parameter list can
+    show it (it is absorbed silently, as after `fix:` D51; before, `_mask` raised) -/
 theorem partial_bound_keywords (sig R : USig) (n : Nat) (kw : List (Nat × Nat)) (pobj : Nat)
     (hwf : WF sig.params) (hkw : (kw.map (·.1)).Nodup)
     (hR : maskPartial sig n kw pobj = .ok R) :
-    ∀ kv ∈ kw, ∃ p ∈ R.params, p.name = kv.1 ∧ p.kind = .ko ∧ p.dflt = some kv.2 := by
+    ∀ kv ∈ kw, (∀ p ∈ sig.params, (p.kind = .vp ∨ p.kind = .vk) → p.name ≠ kv.1) →
+      ∃ p ∈ R.params, p.name = kv.1 ∧ p.kind = .ko ∧ p.dflt = some kv.2 := by
   obtain ⟨st, -, inv0, hm, -, rfl⟩ := partial_ok hwf hR
-  intro kv hkv
-  obtain ⟨p, hp, h1⟩ := (loopP_inv kw inv0.toWInv hm).2.2.2.2.2.2.2.2 hkw kv hkv
+  have hs := sortParams_swf hwf
+  have hall := sortParams_all hwf
+  generalize sortParams sig = s at *
+  intro kv hkv hstar
+  have hns : starNamed (initState s {} (names ((s.pos ++ s.pok).take n))
+      (s.pok.drop (n - s.pos.length))).va s.vk kv.1 = false := by
+    rw [starNamed_false_iff]
+    constructor
+    · intro a ha
+      simp only [initState, Bool.or_self, Bool.false_eq_true, if_false] at ha
+      exact hstar a (by rw [← hall]; simp [Sorted.all, ha]) (Or.inl (hs.bk.va a ha))
+    · intro k hk
+      exact hstar k (by rw [← hall]; simp [Sorted.all, hk]) (Or.inr (hs.bk.vk k hk))
+  obtain ⟨p, hp, h1⟩ := (loopP_inv kw inv0.toWInv hm).2.2.2.2.2.2.2.2 hkw kv hkv hns
   exact ⟨p, mem_sOf_all.2 (Or.inr (Or.inr (Or.inr (Or.inl hp)))), h1⟩
 
 /-- a keyword bound to a positional-or-keyword parameter makes it and all following positional
@@ -243,6 +258,9 @@ theorem partial_absorbed_sources (sig R : USig) (n : Nat) (kw : List (Nat × Nat
     simp only [initState, Bool.or_self, Bool.false_eq_true, if_false] at ha
     rw [ha] at f3
     simp [e] at f3
+  · intro k hk e
+    rw [hk] at f5
+    simp [e] at f5
 
 /-! non-vacuity -/
 def exP : USig :=
@@ -270,7 +288,8 @@ example : maskPartial exP 1 [(1, 5)] 8 = .error .valueError := rfl
 
 -- `partial_bound_keywords`, `partial_absorbed_sources`, `partial_bound_positionals` on the same instance
 example : ∀ kv ∈ [(3, 5), (9, 6)], ∃ p ∈ exPR.params, p.name = kv.1 ∧ p.kind = .ko ∧ p.dflt = some kv.2 :=
-  partial_bound_keywords exP exPR 1 [(3, 5), (9, 6)] 8 (by decide) (by decide) rfl
+  fun kv hkv => partial_bound_keywords exP exPR 1 [(3, 5), (9, 6)] 8 (by decide) (by decide) rfl kv hkv
+    (by revert kv; decide)
 example : (∀ kv ∈ [(3, 5), (9, 6)], kv.1 ∉ names exP.params → dget exPR.src kv.1 = some [8]) ∧
     dget exPR.depths 8 = some 0 :=
   partial_absorbed_sources exP exPR 1 [(3, 5), (9, 6)] 8 (by decide) (by decide) rfl
@@ -293,11 +312,14 @@ example : hasVa exPR2.params = false ∧
   partial_pok_keyword exP exPR2 0 [(1, 5)] 8 (by decide) (by decide) rfl (1, 5) (by decide)
     ⟨1, .pk, none, none, .empty⟩ (by decide) rfl rfl
 
--- an absorbed keyword may transiently clash with the name of `*args` (11): the loop state is then
--- not a valid signature, but a later binding of a positional-or-keyword parameter removes `*args`
--- and the final validation succeeds; without it `inspect.Signature` raises
-example : ∃ R, maskPartial exP 0 [(11, 5), (1, 4)] 8 = .ok R ∧ names R.params = [3, 11, 2, 1, 12] :=
+-- a keyword named like `*args` (11) or `**kw` (12) while that parameter is still there is absorbed
+-- silently: no parameter list can show it (finding D51: `_mask` raised for these before the `fix:`);
+-- once a binding of a positional-or-keyword parameter has removed `*args`, the name is free again
+example : ∃ R, maskPartial exP 0 [(11, 5), (1, 4)] 8 = .ok R ∧ names R.params = [3, 2, 1, 12] :=
   ⟨_, rfl, by decide⟩
-example : maskPartial exP 0 [(11, 5)] 8 = .error .valueError := rfl
+example : ∃ R, maskPartial exP 0 [(1, 4), (11, 5)] 8 = .ok R ∧ names R.params = [3, 2, 1, 11, 12] :=
+  ⟨_, rfl, by decide⟩
+example : ∃ R, maskPartial exP 0 [(11, 5)] 8 = .ok R ∧ R.params = exP.params := ⟨_, rfl, by decide⟩
+example : ∃ R, maskPartial exP 0 [(12, 5)] 8 = .ok R ∧ R.params = exP.params := ⟨_, rfl, by decide⟩
 
 end SV
